@@ -33,7 +33,7 @@ RULE = ('Program templates (test_start present/absent; plain phases; group with 
         '20 enumerated cases {first SIGINT of the process (handler raises KeyboardInterrupt) or not} x {body of a main / teardown / '
         'test_start phase} x delay x {one, two SIGINTs}, each in a forked child with real threads and os.kill; timing-independent '
         'oracle: execute() returns False or re-raises KeyboardInterrupt, one callback with a finalized ABORTED record, after plug '
-        'tearDown (and after the teardown phases for a single abort), nothing of the run continues after execute() is over.')
+        'tearDown (and after the teardown phases for a single abort), nothing of the run continues after execute() is over.  Template stuck-timeout: the stuck phase has a timeout_s of its own; execute() returns within 10 virtual seconds of the abort call returning (the abort call itself waits cancel_timeout_s).')
 ASSUMPTIONS = ['In the scheduled part signal delivery is modelled: the handler runs on the execute() thread at its next yield point or interrupts its wait; '
                'the real-signal part covers only delivery while execute() waits (>=50 ms after a body started).',
                'Bodies that swallow ThreadTerminationError and keep running are excluded from the overlap invariant (they outlive their phase by construction); '
@@ -44,8 +44,8 @@ ASSUMPTIONS = ['In the scheduled part signal delivery is modelled: the handler r
 FOCUS_TEMPLATES = ('plain3', 'start+plain', 'group', 'subtest')
 TEMPLATES = ['plain3', 'start+plain', 'group', 'group-setup-blocks', 'nested', 'subtest', 'force-repeat', 'repeat-result', 'teardown-blocks', 'swallow', 'start-blocks', 'two-groups', 'slow-exit']
 # cancel_timeout_s is a configuration key: (template, value) pairs swept in addition (default in the sweeps above: 2 s)
-CANCEL_VARIANTS = [('stuck', 0), ('stuck', 0.5), ('stuck', 2), ('group', 0), ('teardown-blocks', 0), ('swallow', 0)]
-UNKILLABLE = ('swallow', 'stuck')
+CANCEL_VARIANTS = [('stuck', 0), ('stuck', 0.5), ('stuck', 2), ('group', 0), ('teardown-blocks', 0), ('swallow', 0), ('stuck-timeout', 0.5), ('stuck-timeout', 2)]
+UNKILLABLE = ('swallow', 'stuck', 'stuck-timeout')
 
 
 def _spawn(fn, name):
@@ -136,6 +136,9 @@ def build(template, htf, s, log):
     nodes = [G(main=[mk('m1', 'main', 'swallow'), mk('m2', 'main')], teardown=[mk('t1', 'teardown')])]
   elif template == 'stuck':
     nodes = [G(main=[mk('m1', 'main', 'stuck'), mk('m2', 'main')], teardown=[mk('t1', 'teardown')]), mk('after', 'main')]
+  elif template == 'stuck-timeout':
+    # the same with a timeout of its own on the stuck phase: an abort is not a reason to wait for that timeout
+    nodes = [G(main=[mk('m1', 'main', 'stuck', timeout_s=600), mk('m2', 'main')], teardown=[mk('t1', 'teardown')]), mk('after', 'main')]
   elif template == 'slow-exit':
     nodes = [G(main=[mk('m1', 'main', 'slow-exit'), mk('m2', 'main')], teardown=[mk('t1', 'teardown')]), mk('after', 'main')]
   elif template == 'two-groups':
@@ -267,6 +270,10 @@ def abort_case(case):
         except OSError:
           pass
     log.append(('execute-returned', s.k))
+    if raised:
+      # execute() left without waiting for its executor thread (the listed before-wait finding).  What that thread still
+      # does - plug tearDown above all - belongs to the run: let it finish before the log is judged.
+      s.sleep(30.0)
     incomplete = []
     if cbs:
       rec = cbs[0]
@@ -396,7 +403,7 @@ def check(case):
           tag, case.get('plan'), log))
     started = {e[1] for _, e in starts}
     pairs = {'group': [('m1', ['t1', 't2'])], 'nested': [('im', ['it', 't1']), ('m1', ['t1'])], 'subtest': [('m', ['t'])],
-             'teardown-blocks': [('m1', ['t1'])], 'swallow': [('m1', ['t1'])], 'stuck': [('m1', ['t1'])], 'slow-exit': [('m1', ['t1'])], 'two-groups': [('m1', ['t1']), ('m2', ['t2'])]}
+             'teardown-blocks': [('m1', ['t1'])], 'swallow': [('m1', ['t1'])], 'stuck': [('m1', ['t1'])], 'stuck-timeout': [('m1', ['t1'])], 'slow-exit': [('m1', ['t1'])], 'two-groups': [('m1', ['t1']), ('m2', ['t2'])]}
     for main_name, tds in pairs.get(tag, []):
       if main_name in started:
         for td in tds:
@@ -430,6 +437,14 @@ def check(case):
       open_, open_t = e[1], res['times'][i]
     elif e[0] == 'end' and e[1] == open_:
       open_ = None
+  # O9 a body that cannot be cancelled is abandoned once the abort call has waited cancel_timeout_s for it: what is left after
+  # the abort returned are quick teardown bodies and plug tearDown (1 s limit), not the stuck phase's own timeout
+  if tag in ('stuck', 'stuck-timeout') and exits:
+    t_exit = res['times'][exits[-1]]
+    t_ret = [res['times'][i] for i, e in enumerate(log) if e[0] == 'execute-returned']
+    if t_ret and t_ret[0] > t_exit + 10.0:
+      r.bad('C04/execute-delayed-after-abort', '%s plan=%r: the abort call returned at virtual time %.1f, execute() at %.1f; log=%r' % (
+          tag, case.get('plan'), t_exit, t_ret[0], log))
   # O7 nothing starts after the record was handed out
   if cb:
     for i, e in starts:
